@@ -375,6 +375,9 @@ def r6_counter_arithmetic(chk: Check):
             return d.split(".")[1]
         if isinstance(e, ast.Call) and isinstance(e.func, ast.Name) and len(e.args) == 1 and not e.keywords:
             hv = [ff for ff in tree.funcs.values() if ff.parent is f and ff.node.name == e.func.id]
+            if not hv:
+                # a module-level function of the same module, provided it has no effect (checked by C07.R2)
+                hv = [ff for ff in tree.funcs.values() if ff.parent is None and ff.cls is None and ff.module is f.module and ff.node.name == e.func.id]
             if hv:
                 if len(hv[0].node.args.args) != 1:
                     raise ValueError(f"{e.func.id}()")
